@@ -19,6 +19,12 @@ CHECKS = {
  "C03": dict(cat="model_checking", technique="explicit-state BFS over user operation sequences through the real entrypoint with an exact wealth oracle; plus a depth-1 sweep from forged-share-value roots",
    text="Every sequence (depth 4 quick / 6 thorough) of deposit, withdraw, withdraw-all, borrow, repay, repay-all, close-balance by a user on two banks at constant share values and prices, and every single operation from roots with share values 1, 1+ulp, 4/3, 0.37, 255.9 across 0/6/9/18-decimal and transfer-fee mints with amounts around share-value multiples, is executed; on each committed step tokens received plus exact position-value change may not exceed a few ulps.",
    ref="6 C03"),
+ "C04": dict(cat="exploration", technique="complete configuration product; per configuration bisection of the amount through the real instruction to the accept/reject boundary, window and grid execution, two-sided exact-rational reference health",
+   text="Every combination of collateral weight, price/EMA ratio, confidence (incl. the 5% cap and the 10% maximum), collateral state (normal, reduce-only, isolated, stale oracle, collateral-value cap), second collateral, liability weight/confidence, five e-mode variants and action (borrow, withdraw), plus 16-position portfolios: the amount is bisected through the real instruction, boundary+-8 and a 32-point grid are executed; acceptances must have reference initial health >= -allowance on their real post-state, the boundary rejection must have reference health <= +allowance one unit further, accept sets must be monotone, and unusable collateral must leave the boundary where it is without the position.",
+   ref="6 C04"),
+ "C05": dict(cat="exploration", technique="complete configuration product with the liquidatee's health steered by bisecting the oracle price on the reference; seize amount bisected through the real instruction; exact-rational oracle for eligibility, improvement and the 95/97.5/2.5 split",
+   text="All combinations of mint decimals/token programs, five liquidatee health levels (one oracle tick above/below zero, -10%, x3, negative only after confidence bias), five liquidator portfolios, four maintenance weight pairs and collateral confidence: seize amounts 1,2,3, over-liquidation boundary+-2, collateral+-1, fractions and an oversize amount are executed; each success is judged against the exact reference.",
+   ref="6 C05"),
  "C06": dict(cat="model_checking", technique="explicit-state BFS with a differential oracle (handler vs explicit-accrue-then-handler) through the real entrypoint; product sweep of the accrue instruction with exact conservation oracle",
    text="(b) For every state reached by sequences up to depth 3 (quick) / 4 (thorough) incl. clock advances, every handler step on a bank with pending interest is re-executed after an explicit accrual of the banks it transacts in; outcome and end state must coincide. (a) 10k+ accrue instructions over curves x fees x totals x utilisations x share values x elapsed times must keep share values monotone, fees non-negative / zero when disabled, be idempotent, and conserve value within a derived allowance.",
    ref="6 C06"),
